@@ -18,6 +18,7 @@ mod c12;
 mod c13;
 mod c14;
 mod c15;
+mod c18;
 
 use common::*;
 
@@ -47,6 +48,7 @@ fn main() {
         "c13truth" => c13::run_truth(&args),
         "c14" => c14::run(&args),
         "c15" => c15::run(&args),
+        "c18gen" => c18::run(&args),
         "c05depth" => c05::run_depth(&args),
         "c05case" => c05::run_one(&args),
         other => {
